@@ -51,6 +51,16 @@ def scheduler_corpus():
     ]
 
 
+def zero_length_corpus():
+    """a forced completion of length 0 lets the process left behind by the unforced calls catch up and leaves the
+    complete ones alone (F50); used by C02 and C03 only: the catch-up re-emits a row for the same time, which the
+    row properties (C01, C04, C12) exclude — noted edge"""
+    return [
+        S([P('p0', [2]), P('p1', [5])], [[2, False], [2, False], [0, True]]),
+        S([P('p0', [2])], [[0, True], [2, True], [0, True]]),
+    ]
+
+
 def common_compare_guard(impl, model):
     if 'nonterminating' in model or 'graphError' in model:
         return f'model: {model}'
